@@ -1,4 +1,5 @@
 import NTV.Proofs.Lemmas.HenselAlg
+import NTV.Proofs.Lemmas.HenselModel
 import NTV.Proofs.Lemmas.PolyModBasics
 import NTV.Model.PolyModHensel
 /-! # C11 — Hensel lifting: what is proved so far.
@@ -14,6 +15,21 @@ theorem hensel_step_algebra (q r : ℤ) (hrq : r ∣ q) (a b c u v f t F : ℤ[X
     NTV.Hensel.PCong (q * r) c ((a + C q * (v * f - a * t)) * (b + C q * (u * f + b * t))) ∧
     NTV.Hensel.PCong q (a + C q * (v * f - a * t)) a ∧ NTV.Hensel.PCong q (b + C q * (u * f + b * t)) b :=
   NTV.Hensel.hensel_step q r hrq a b c u v f t F hc hf huv
+
+/-- the model of `hensel_lift` itself, full: for all integers p, q and all coefficient lists,
+c ≡ a·b (mod q) and a·u + b·v ≡ 1 (mod gcd(p,q)) imply that the returned (a₁, b₁, m) has m = q·gcd(p,q),
+c ≡ a₁·b₁ (mod m), a₁ ≡ a and b₁ ≡ b (mod q) — whatever quotient the inner division produces -/
+theorem henselLift_full (p q : Int) (c a b u v : List Int)
+    (hc : NTV.Hensel.PCong q (NTV.PolyG.toPoly c) (NTV.PolyG.toPoly a * NTV.PolyG.toPoly b))
+    (huv : NTV.Hensel.PCong (Int.gcd p q : Int)
+      (NTV.PolyG.toPoly a * NTV.PolyG.toPoly u + NTV.PolyG.toPoly b * NTV.PolyG.toPoly v) 1) :
+    (NTV.PolyMod.henselLift p q c a b u v).2.2 = q * (Int.gcd p q : Int) ∧
+    NTV.Hensel.PCong (q * (Int.gcd p q : Int)) (NTV.PolyG.toPoly c)
+      (NTV.PolyG.toPoly (NTV.PolyMod.henselLift p q c a b u v).1 *
+        NTV.PolyG.toPoly (NTV.PolyMod.henselLift p q c a b u v).2.1) ∧
+    NTV.Hensel.PCong q (NTV.PolyG.toPoly (NTV.PolyMod.henselLift p q c a b u v).1) (NTV.PolyG.toPoly a) ∧
+    NTV.Hensel.PCong q (NTV.PolyG.toPoly (NTV.PolyMod.henselLift p q c a b u v).2.1) (NTV.PolyG.toPoly b) :=
+  NTV.Hensel.henselLift_spec p q c a b u v hc huv
 
 /-- for e = 1 the lifting loop does not run: the factors are returned unchanged -/
 theorem exponent_one_unchanged (p : Int) (c : List Int) (factors : List (List Int)) :
